@@ -187,6 +187,55 @@ ElemForEach::postConstruction(
 
 
 
+// Holds the strings for the lang attributes of the sort keys, and gives
+// them back to the execution context when the sort is done.
+class LanguageStrings
+{
+public:
+
+    LanguageStrings(StylesheetExecutionContext&     theExecutionContext) :
+        m_executionContext(theExecutionContext),
+        m_strings(theExecutionContext.getMemoryManager())
+    {
+    }
+
+    ~LanguageStrings()
+    {
+        while(m_strings.empty() == false)
+        {
+            m_executionContext.releaseCachedString(*m_strings.back());
+
+            m_strings.pop_back();
+        }
+    }
+
+    XalanDOMString&
+    get()
+    {
+        m_strings.reserve(m_strings.size() + 1);
+
+        XalanDOMString&     theString = m_executionContext.getCachedString();
+
+        m_strings.push_back(&theString);
+
+        return theString;
+    }
+
+private:
+
+    // Not implemented...
+    LanguageStrings(const LanguageStrings&);
+
+    LanguageStrings&
+    operator=(const LanguageStrings&);
+
+    StylesheetExecutionContext&     m_executionContext;
+
+    XalanVector<XalanDOMString*>    m_strings;
+};
+
+
+
 #if !defined(XALAN_RECURSIVE_STYLESHEET_EXECUTION)
 const ElemTemplateElement*
 ElemForEach::startElement(StylesheetExecutionContext&       executionContext) const
@@ -372,6 +421,8 @@ ElemForEach::sortChildren(
 
     XalanDOMString&     scratchString = theTemp2.get();
 
+    LanguageStrings     theLangStrings(executionContext);
+
     // March backwards, performing a sort on each xsl:sort child.
     // Probably not the most efficient method.
     for(SortElemsVectorType::size_type  i = 0; i < m_sortElemsCount; i++)
@@ -379,11 +430,20 @@ ElemForEach::sortChildren(
         const ElemSort* const   sort = m_sortElems[i];
         assert(sort != 0);
 
+        // Each key keeps a pointer to its language string until the sort
+        // is done, so every key that has a lang attribute needs a string
+        // of its own.  langString stays empty, for the keys without one.
+        const XalanDOMString*   theLanguage = &langString;
+
         const AVT* avt = sort->getLangAVT();
 
         if(0 != avt)
         {
-            avt->evaluate(langString, *this, executionContext);
+            XalanDOMString&     theString = theLangStrings.get();
+
+            avt->evaluate(theString, *this, executionContext);
+
+            theLanguage = &theString;
         }
 
         avt = sort->getDataTypeAVT();
@@ -487,7 +547,7 @@ ElemForEach::sortChildren(
                     treatAsNumbers,
                     descending,
                     caseOrder,
-                    langString,
+                    *theLanguage,
                     *this));
     }
 
@@ -566,6 +626,8 @@ ElemForEach::transformSelectedChildren(
 
         XalanDOMString&     scratchString = theTemp2.get();
 
+        LanguageStrings     theLangStrings(executionContext);
+
         // March backwards, performing a sort on each xsl:sort child.
         // Probably not the most efficient method.
         for(SortElemsVectorType::size_type  i = 0; i < m_sortElemsCount; i++)
@@ -573,11 +635,20 @@ ElemForEach::transformSelectedChildren(
             const ElemSort* const   sort = m_sortElems[i];
             assert(sort != 0);
 
+            // Each key keeps a pointer to its language string until the sort
+            // is done, so every key that has a lang attribute needs a string
+            // of its own.  langString stays empty, for the keys without one.
+            const XalanDOMString*   theLanguage = &langString;
+
             const AVT* avt = sort->getLangAVT();
 
             if(0 != avt)
             {
-                avt->evaluate(langString, *this, executionContext);
+                XalanDOMString&     theString = theLangStrings.get();
+
+                avt->evaluate(theString, *this, executionContext);
+
+                theLanguage = &theString;
             }
 
             avt = sort->getDataTypeAVT();
@@ -677,7 +748,7 @@ ElemForEach::transformSelectedChildren(
                         treatAsNumbers,
                         descending,
                         caseOrder,
-                        langString,
+                        *theLanguage,
                         *this));
         }
 
